@@ -29,7 +29,7 @@ ASSUMPTIONS = [
     'a syntactically malformed resource name may be rejected as INVALID by one backend and NOT_FOUND by another: '
     'both count as the same rejection (the documentation does not say which)',
 ]
-REQUIRED_COUNTERS = ['calls_compared_3way', 'snapshots_compared_3way', 'study_recreations', 'failed_metadata_updates',
+REQUIRED_COUNTERS = ['committed_equals_visible_checked', 'early_stop_answers_compared', 'early_stop_answers_true', 'algorithm_reach_compared', 'calls_compared_3way', 'snapshots_compared_3way', 'study_recreations', 'failed_metadata_updates',
                      'operations_compared']
 MIN_DISTINCT = {'quick': 60, 'thorough': 2000}
 
@@ -105,7 +105,10 @@ def run_case(ctx, index, calls=None):
         nm = S.study_name(call['owner'], call['display'])
         if nm in deleted and nm not in ram.model.studies:
           events['recreate'] += 1
+      ram_reach0 = (ram.controller.suggest_calls, ram.controller.early_stop_calls)
       disc = ram.step(call)
+      ram_reach = (ram.controller.suggest_calls - ram_reach0[0], ram.controller.early_stop_calls - ram_reach0[1])
+      ram_raw = ram.last_raw
       for d in disc:
         ctx.violation('ram-vs-model:' + c01.classify(d, call),
                       f'RAM backend vs reference model: {d["kind"]} at step {d["step"]} ({d["op"]}): {d["what"]}'[:500],
@@ -128,8 +131,13 @@ def run_case(ctx, index, calls=None):
         ctl.stub_studies = ram.controller.stub_studies
         if call.get('_stub_entry') is not None:
           ctl.plan.append(dict(call['_stub_entry']))
-        ocls, oresp, _ = S.call_servicer(sv, call)
+        if call.get('_es_entry') is not None:
+          ctl.es_plan.append(dict(call['_es_entry']))
+        reach0 = (ctl.suggest_calls, ctl.early_stop_calls)
+        ocls, oresp, oraw = S.call_servicer(sv, call)
         ctl.plan.clear()
+        ctl.es_plan.clear()
+        reach = (ctl.suggest_calls - reach0[0], ctl.early_stop_calls - reach0[1])
         ctx.count('calls_compared_3way')
         if malformed(call) and {ocls, ram_out} <= {'INVALID', 'NOT_FOUND'}:
           ctx.count('malformed_names_rejected_by_all')
@@ -139,6 +147,25 @@ def run_case(ctx, index, calls=None):
                         f'step {k} {call["op"]}: RAM -> {ram_out}, {name} -> {ocls} ({str(oresp)[:150]})', case)
           bad = True
           continue
+        # the harness algorithm is deterministic: every backend must consult it equally
+        # often (a backend that keeps answering from a stored operation never does) ...
+        ctx.count('algorithm_reach_compared')
+        if reach != ram_reach:
+          ctx.violation(f'algorithm-reach-differs:{call["op"]}:{name}',
+                        f'step {k} {call["op"]}: the algorithm was consulted (suggest, early-stop) = {ram_reach} times behind RAM '
+                        f'but {reach} times behind {name}', case)
+          bad = True
+        # ... and its early-stopping decision must come back the same
+        if (call['op'] == 'CheckTrialEarlyStoppingState' and ocls == 'OK' and ram_out == 'OK'
+            and call['trial'].split('/trials/')[0] in ram.controller.stub_studies):
+          ctx.count('early_stop_answers_compared')
+          if bool(oraw.should_stop):
+            ctx.count('early_stop_answers_true')
+          if bool(oraw.should_stop) != bool(ram_raw.should_stop):
+            ctx.violation(f'early-stop-answer-differs:{name}',
+                          f'step {k}: CheckTrialEarlyStoppingState answered should_stop={bool(ram_raw.should_stop)} behind RAM and '
+                          f'{bool(oraw.should_stop)} behind {name} (same deterministic algorithm decision {call.get("_es_entry")})', case)
+            bad = True
         if ocls == 'OK':
           d = model_lib.diff(mask_random(ram_resp, random_studies), mask_random(oresp, random_studies))
           if d:
@@ -152,6 +179,14 @@ def run_case(ctx, index, calls=None):
           ctx.violation(f'stored-state-differs:{call["op"]}:{name}',
                         f'after step {k} {call["op"]}: stored state of {name} differs from RAM at {d}'[:500], case)
           bad = True
+        if name == 'sqlfile':
+          # what the server sees through its own connection must be what is committed to the file
+          ctx.count('committed_equals_visible_checked')
+          pend = S.uncommitted_writes(sv, f'{tmp}/v.db')
+          if pend:
+            ctx.violation(f'acknowledged-write-not-committed:{call["op"]}',
+                          f'after step {k} {call["op"]} ({ocls}) the SQLite file lacks changes the server already shows: {pend}'[:500], case)
+            bad = True
         for kind, detail in sv.datastore._mon.anomalies:
           ctx.violation(f'monitor:{kind}:{name}', f'{name}: {kind} {detail}'[:400], case)
           bad = True
